@@ -254,7 +254,16 @@ def call_model(c, t, at, edge):
                 b = c.av(x, at, edge)
                 b = deref_av(b)
                 ty = c.ft.tyof(t) or ""
-                if b[0] == "v" and "Vec<" in ty:
+                if b[0] == "v" and (ty.startswith("std::result::Result<std::vec::Vec<") or ty.startswith("std::option::Option<std::vec::Vec<")):
+                    # collect::<Result<Vec<_>, E>>(): Ok holds exactly one element per input, or the first Err / None
+                    okv, bad = ("Ok", "Err") if ty.startswith("std::result") else ("Some", "None")
+                    inner = TOP
+                    if elem[0] == "e":
+                        for vn, pl in elem[1]:
+                            if vn == okv:
+                                inner = sget(pl, "0") or TOP
+                    return E({okv: S({"0": V(b[1], inner, None)}), bad: (S({"0": TOP}) if bad == "Err" else S({}))})
+                if b[0] == "v" and ty.startswith(("std::vec::Vec<", "alloc::vec::Vec<")):
                     ln = b[1]
                     if "map" not in names:
                         elem = b[2]
